@@ -35,6 +35,7 @@ struct Link {
     to: String,
     handshake: Vec<String>,
     rx: Receiver<String>,
+    pending: std::collections::VecDeque<String>, // lines taken off rx, not delivered yet
     server: (Client, Receiver<String>), // at `to`
     reader: Client,                     // at `from`
     replies: Vec<String>,               // lines travelling to -> from
@@ -43,10 +44,81 @@ struct Link {
     back: u64,
 }
 
+/// A call into the node that may block in an election wait loop runs on a thread of its own;
+/// the election hook parks it and hands control back to the scheduler (this thread).
+struct Co {
+    st: std::sync::Mutex<u8>, // 0 running, 1 parked at a wait, 2 done
+    cv: std::sync::Condvar,
+}
+
+thread_local! {
+    static CUR_CO: std::cell::RefCell<Option<Arc<Co>>> = std::cell::RefCell::new(None);
+}
+
+fn election_hook(_site: &'static str) {
+    let co = CUR_CO.with(|c| c.borrow().clone());
+    if let Some(co) = co {
+        let mut s = co.st.lock().unwrap();
+        *s = 1;
+        co.cv.notify_all();
+        while *s != 0 {
+            s = co.cv.wait(s).unwrap();
+        }
+    }
+}
+
+type CoOut = (Client, Receiver<String>, Option<Response>);
+
+fn run_co(dir: String, f: Box<dyn FnOnce() -> CoOut + Send>) -> (Arc<Co>, std::thread::JoinHandle<CoOut>) {
+    let co = Arc::new(Co { st: std::sync::Mutex::new(0), cv: std::sync::Condvar::new() });
+    let co2 = co.clone();
+    let h = std::thread::spawn(move || {
+        CUR_CO.with(|c| *c.borrow_mut() = Some(co2.clone()));
+        nundb::verif_hooks::set_data_dir(Some(dir));
+        let r = f();
+        let mut s = co2.st.lock().unwrap();
+        *s = 2;
+        co2.cv.notify_all();
+        r
+    });
+    (co, h)
+}
+
+/// wait until the call finished (true) or parked (false)
+fn wait_co(co: &Arc<Co>) -> bool {
+    let mut s = co.st.lock().unwrap();
+    while *s == 0 {
+        s = co.cv.wait(s).unwrap();
+    }
+    *s == 2
+}
+
+fn resume_co(co: &Arc<Co>) {
+    let mut s = co.st.lock().unwrap();
+    *s = 0;
+    co.cv.notify_all();
+}
+
+enum FrameKind {
+    Deliver(usize, String),
+    Cmd(usize, usize),
+}
+
+struct Frame {
+    co: Arc<Co>,
+    handle: Option<std::thread::JoinHandle<CoOut>>,
+    kind: FrameKind,
+}
+
 struct Cluster {
     nodes: Vec<CNode>,
     links: Vec<Link>,
     crossings: u64,
+    frames: Vec<Frame>,
+    busy_links: Vec<usize>,
+    busy_sessions: Vec<(usize, usize)>,
+    last_cmd: Vec<String>,
+    links_base: u64, // link threads spawned before this case began
 }
 
 fn poll(f: &mut Option<Fut>) -> bool {
@@ -114,6 +186,7 @@ impl Cluster {
                     to: l.to,
                     handshake: hs,
                     rx: l.receiver,
+                    pending: std::collections::VecDeque::new(),
                     server: Client::new_empty_and_receiver(),
                     reader,
                     replies: Vec::new(),
@@ -122,8 +195,8 @@ impl Cluster {
                     back: 0,
                 });
             }
-            let open_now = self.links.iter().filter(|l| l.open).count();
-            if open_now >= self.expected_links() || std::time::Instant::now() > deadline {
+            // every link thread the supervisors spawned has registered (spawns are counted synchronously)
+            if self.links.len() as u64 + self.links_base >= nundb::verif_hooks::links_spawned() || std::time::Instant::now() > deadline {
                 break;
             }
             std::thread::sleep(std::time::Duration::from_millis(1));
@@ -139,30 +212,60 @@ impl Cluster {
         if !l.handshake.is_empty() {
             return Some(l.handshake.remove(0));
         }
-        match l.rx.try_next() {
-            Ok(Some(m)) => Some(m),
-            _ => None,
+        while let Ok(Some(m)) = l.rx.try_next() {
+            l.pending.push_back(m);
         }
+        l.pending.pop_front()
     }
 
     /// one line from -> to, processed by the real handler with the link's server-side client
     fn deliver(&mut self, li: usize) -> Option<String> {
+        if self.busy_links.contains(&li) {
+            // the connection's handler thread is still inside an election
+            return None;
+        }
         let line = self.pending_line(li)?;
         let ti = self.idx(&self.links[li].to.clone());
-        self.enter(ti);
         let dbs = self.nodes[ti].dbs.clone();
+        let dir = self.nodes[ti].dir.clone();
+        let (mut client, rx) = std::mem::replace(&mut self.links[li].server, Client::new_empty_and_receiver());
+        let line2 = line.clone();
+        let (co, h) = run_co(
+            dir,
+            Box::new(move || {
+                let r = std::panic::catch_unwind(std::panic::AssertUnwindSafe(|| process_request(&line2, &dbs, &mut client)));
+                (client, rx, r.ok())
+            }),
+        );
+        self.crossings += 1;
+        self.links[li].sent += 1;
+        if std::env::var("VERIF_TRACE").is_ok() {
+            eprintln!("TRACE-START {}>{} {}", self.links[li].from, self.links[li].to, line);
+        }
+        if wait_co(&co) {
+            let out = h.join().unwrap();
+            Some(self.finish_deliver(li, &line, out))
+        } else {
+            self.busy_links.push(li);
+            self.frames.push(Frame { co, handle: Some(h), kind: FrameKind::Deliver(li, line.clone()) });
+            Some(format!("{} => Suspended", esc(line.as_bytes())))
+        }
+    }
+
+    fn finish_deliver(&mut self, li: usize, line: &str, out: CoOut) -> String {
+        let (client, rx, r) = out;
         let l = &mut self.links[li];
-        let r = std::panic::catch_unwind(std::panic::AssertUnwindSafe(|| process_request(&line, &dbs, &mut l.server.0)));
+        l.server = (client, rx);
         let res = match r {
-            Ok(Response::Error { msg }) => {
+            Some(Response::Error { msg }) => {
                 let _ = l.server.0.sender.try_send(format!("error {} \n", msg));
                 format!("Error {}", esc(msg.as_bytes()))
             }
-            Ok(r) => {
+            Some(r) => {
                 let _ = l.server.0.sender.try_send("ok \n".to_string());
                 resp_str(&r)
             }
-            Err(_) => "PANIC".to_string(),
+            None => "PANIC".to_string(),
         };
         for m in drain_rx(&mut l.server.1) {
             for part in m.split('\n') {
@@ -172,12 +275,87 @@ impl Cluster {
                 }
             }
         }
-        self.crossings += 1;
-        self.links[li].sent += 1;
         if std::env::var("VERIF_TRACE").is_ok() {
             eprintln!("TRACE {}>{} {} => {}", self.links[li].from, self.links[li].to, line, res);
         }
-        Some(format!("{} => {}", esc(line.as_bytes()), res))
+        format!("{} => {}", esc(line.as_bytes()), res)
+    }
+
+    /// a client command; "Suspended" when it blocks in an election
+    fn client_cmd(&mut self, ni: usize, sid: usize, line: &str) -> String {
+        if self.busy_sessions.contains(&(ni, sid)) {
+            return "Busy".to_string();
+        }
+        let dbs = self.nodes[ni].dbs.clone();
+        let dir = self.nodes[ni].dir.clone();
+        let (mut client, rx) = std::mem::replace(&mut self.nodes[ni].sessions[sid], Client::new_empty_and_receiver());
+        let line2 = line.to_string();
+        let (co, h) = run_co(
+            dir,
+            Box::new(move || {
+                let r = std::panic::catch_unwind(std::panic::AssertUnwindSafe(|| process_request(&line2, &dbs, &mut client)));
+                (client, rx, r.ok())
+            }),
+        );
+        if wait_co(&co) {
+            let (client, rx, r) = h.join().unwrap();
+            self.nodes[ni].sessions[sid] = (client, rx);
+            match r {
+                Some(r) => resp_str(&r),
+                None => "PANIC".to_string(),
+            }
+        } else {
+            self.busy_sessions.push((ni, sid));
+            self.frames.push(Frame { co, handle: Some(h), kind: FrameKind::Cmd(ni, sid) });
+            "Suspended".to_string()
+        }
+    }
+
+    /// every suspended election takes one step of its wait loop (in creation order)
+    fn tick_frames(&mut self) -> usize {
+        let n = self.frames.len();
+        if std::env::var("VERIF_TRACE").is_ok() {
+            eprintln!("TRACE-TICK {}", n);
+        }
+        let mut done_idx = Vec::new();
+        for k in 0..n {
+            let co = self.frames[k].co.clone();
+            resume_co(&co);
+            if wait_co(&co) {
+                let h = self.frames[k].handle.take().unwrap();
+                let out = h.join().unwrap();
+                match &self.frames[k].kind {
+                    FrameKind::Deliver(li, line) => {
+                        let (li, line) = (*li, line.clone());
+                        self.busy_links.retain(|x| *x != li);
+                        let _ = self.finish_deliver(li, &line, out);
+                    }
+                    FrameKind::Cmd(ni, sid) => {
+                        let (ni, sid) = (*ni, *sid);
+                        self.busy_sessions.retain(|x| *x != (ni, sid));
+                        let (client, rx, r) = out;
+                        self.nodes[ni].sessions[sid] = (client, rx);
+                        self.last_cmd.push(format!(
+                            "{}/{}:{}",
+                            self.nodes[ni].name,
+                            sid,
+                            match r {
+                                Some(r) => resp_str(&r),
+                                None => "PANIC".to_string(),
+                            }
+                        ));
+                    }
+                }
+                done_idx.push(k);
+            }
+        }
+        let mut k = 0;
+        self.frames.retain(|_| {
+            let keep = !done_idx.contains(&k);
+            k += 1;
+            keep
+        });
+        n
     }
 
     /// one reply line to -> from, processed by the reader side of the link
@@ -242,7 +420,11 @@ impl Cluster {
                 }
             }
             if !moved {
-                return (rounds, true);
+                if self.frames.is_empty() {
+                    return (rounds, true);
+                }
+                // nothing can be delivered: the election wait loops advance (their timers tick)
+                self.tick_frames();
             }
         }
     }
@@ -270,6 +452,14 @@ impl Cluster {
         l.open = false;
         nundb::verif_hooks::close_link(l.id);
         std::thread::sleep(std::time::Duration::from_millis(5));
+    }
+
+    fn refill(&mut self) {
+        for l in self.links.iter_mut() {
+            while let Ok(Some(m)) = l.rx.try_next() {
+                l.pending.push_back(m);
+            }
+        }
     }
 
     fn dump(&self) -> String {
@@ -330,6 +520,24 @@ impl Cluster {
             .collect();
         ls.sort();
         out.push_str(&format!(" links=[{}]", ls.join(",")));
+        let mut qs: Vec<String> = self
+            .links
+            .iter()
+            .filter(|l| l.open && (!l.handshake.is_empty() || !l.pending.is_empty() || !l.replies.is_empty()))
+            .map(|l| {
+                let mut lines: Vec<String> = l.handshake.iter().map(|x| esc(x.trim().as_bytes())).collect();
+                lines.extend(l.pending.iter().map(|x| esc(x.trim().as_bytes())));
+                let back: Vec<String> = l.replies.iter().map(|x| esc(x.trim().as_bytes())).collect();
+                format!("{}>{}:{}<{}", l.from, l.to, lines.join("|"), back.join("|"))
+            })
+            .collect();
+        qs.sort();
+        if !qs.is_empty() {
+            out.push_str(&format!(" queues=[{}]", qs.join(",")));
+        }
+        if !self.frames.is_empty() {
+            out.push_str(&format!(" elections={}", self.frames.len()));
+        }
         out
     }
 }
@@ -361,10 +569,11 @@ fn new_cnode(name: &str, pid: u128, role: ClusterRole, dir: String) -> CNode {
 pub fn run(path: &str, workdir: &str) {
     let mut out = Out::new();
     nundb::verif_hooks::set_link_mode(true);
+    nundb::verif_hooks::set_election_hook(Some(Box::new(|site: &'static str| election_hook(site))));
     for case in read_cases(path) {
         out.line(&format!("C {}", case.id));
         let _ = nundb::verif_hooks::take_links();
-        let mut cl = Cluster { nodes: Vec::new(), links: Vec::new(), crossings: 0 };
+        let mut cl = Cluster { nodes: Vec::new(), links: Vec::new(), crossings: 0, frames: Vec::new(), busy_links: Vec::new(), busy_sessions: Vec::new(), last_cmd: Vec::new(), links_base: nundb::verif_hooks::links_spawned() };
         let mut notices: HashMap<(usize, usize), Vec<String>> = HashMap::new();
         // header: name:role:pid ...
         for (i, h) in case.header.iter().filter(|h| h.contains('/')).enumerate() {
@@ -385,13 +594,9 @@ pub fn run(path: &str, workdir: &str) {
                     let sid: usize = op[2].parse().unwrap();
                     let line = unhex_s(&op[3]);
                     cl.enter(i);
-                    let dbs = cl.nodes[i].dbs.clone();
-                    let client = &mut cl.nodes[i].sessions[sid].0;
-                    match std::panic::catch_unwind(std::panic::AssertUnwindSafe(|| process_request(&line, &dbs, client))) {
-                        Ok(r) => resp_str(&r),
-                        Err(_) => "PANIC".to_string(),
-                    }
+                    cl.client_cmd(i, sid, &line)
                 }
+                "tick" => format!("Ticked {}", cl.tick_frames()),
                 "rsv" => {
                     // the arbiter (a client of node op[1]) answers the idx-th notice it received
                     let i = cl.idx(&op[1]);
@@ -453,7 +658,8 @@ pub fn run(path: &str, workdir: &str) {
                 "drop" => match cl.link_pos(&op[1], &op[2]) {
                     // the lines queued from -> to are lost (the peer is away)
                     Some(li) => {
-                        let mut k = 0;
+                        let mut k = cl.links[li].pending.len();
+                        cl.links[li].pending.clear();
                         while let Ok(Some(_)) = cl.links[li].rx.try_next() {
                             k += 1;
                         }
@@ -473,7 +679,11 @@ pub fn run(path: &str, workdir: &str) {
                     None => "NoLink".to_string(),
                 },
                 "settle" => {
-                    let (rounds, ok) = cl.settle(200);
+                    if std::env::var("VERIF_TRACE").is_ok() {
+                        eprintln!("TRACE-SETTLE");
+                    }
+                    let budget: usize = op.get(1).and_then(|b| b.parse().ok()).unwrap_or(200);
+                    let (rounds, ok) = cl.settle(budget);
                     if ok {
                         format!("Settled")
                     } else {
@@ -508,7 +718,10 @@ pub fn run(path: &str, workdir: &str) {
                 }
             }
             let inb = if parts.is_empty() { "-".to_string() } else { parts.join(";") };
+            let done: Vec<String> = std::mem::take(&mut cl.last_cmd);
+            let res = if done.is_empty() { res } else { format!("{} done=[{}]", res, done.join(",")) };
             out.line(&format!("{} | {} | x={}", res, inb, cl.crossings - before));
+            cl.refill();
             let d = match std::panic::catch_unwind(std::panic::AssertUnwindSafe(|| cl.dump())) {
                 Ok(s) => s,
                 Err(_) => " POISONED".to_string(),
